@@ -79,7 +79,7 @@ func KeeperRefund(a Aspect, maxHops int) {
 	if verif.Bool("timeout") {
 		err = w.K.OnTimeoutPacket(w.Ctx, port, channel, data)
 	} else {
-		err = w.K.OnAcknowledgementPacket(w.Ctx, port, channel, data, channeltypes.NewErrorAcknowledgement(types.ErrReceiveFailed))
+		err = w.K.OnAcknowledgementPacket(w.Ctx, port, channel, data, errorAck())
 	}
 	if err != nil {
 		verif.Reach("refund refused")
@@ -243,4 +243,9 @@ func V2Refund(a Aspect) {
 	}
 	verif.Reach("refunded")
 	w.RefundContract(a, pre, bs, xs, sender.Addr, payload.SourcePort, src, wire.Denom, coin)
+}
+
+// errorAck is an error acknowledgement with an arbitrary error string (counterparties other than ibc-go choose their own).
+func errorAck() channeltypes.Acknowledgement {
+	return channeltypes.Acknowledgement{Response: &channeltypes.Acknowledgement_Error{Error: verif.String("ackError")}}
 }
